@@ -396,6 +396,20 @@ def r2_answers(ctx):
                                 "answer is 'true' or 'false'")
             ctx.ok(st, "only 'true'/'false' answers are stored")
             continue
+        # answers mapped through a module-level table:
+        # v = TABLE.get(<answer, stripped/lower-cased>)
+        tab = _table_lookup(v, sp, pm)
+        if tab is not None:
+            tname, mapping, keyexpr = tab
+            ctx.check(mapping == {"true": True, "false": False}, st,
+                      f"answers mapped through {tname} = {mapping}",
+                      f"the table {tname} maps the accepted answers to "
+                      f"{mapping}: 'true'/'false' are not stored as "
+                      "True/False")
+            ctx.check(lowered(keyexpr) or isinstance(keyexpr, ast.Name),
+                      st, f"table key {norm(keyexpr)[:40]}",
+                      "the table is not consulted with the answer")
+            continue
         if not isinstance(v, ast.Name):
             ctx.fail(st, f"vary := {norm(v)}",
                      "the stored vary flag is computed by an expression "
@@ -445,8 +459,40 @@ def r2_answers(ctx):
                      "'True' after lower-casing: always False)")
 
 
-def _derived(value, var, fn):
-    """value uses a local that was assigned from an expression of var"""
+def _table_lookup(v, fn, mod, depth=0):
+    """(table name, {key: value}, key expression) when `v` is - through
+    plain local aliases - `TABLE.get(<expr>)` / `TABLE[<expr>]` of a
+    module-level dict literal"""
+    if depth > 3:
+        return None
+    if isinstance(v, ast.Name):
+        defs = [st.value for st in walk_no_nested(fn, False)
+                if isinstance(st, ast.Assign) and len(st.targets) == 1
+                and norm(st.targets[0]) == v.id
+                and not (isinstance(st.value, ast.Constant)
+                         and st.value.value is None)]
+        if len(defs) != 1:
+            return None
+        return _table_lookup(defs[0], fn, mod, depth + 1)
+    key = tname = None
+    if isinstance(v, ast.Call) and isinstance(v.func, ast.Attribute) and \
+            v.func.attr == "get" and isinstance(v.func.value, ast.Name) and \
+            len(v.args) == 1:
+        tname, key = v.func.value.id, v.args[0]
+    elif isinstance(v, ast.Subscript) and isinstance(v.value, ast.Name):
+        tname, key = v.value.id, v.slice
+    if tname is None or tname not in mod.assigns or len(
+            mod.assigns[tname]) != 1:
+        return None
+    lit = literal(mod.assigns[tname][-1])
+    if not isinstance(lit, dict):
+        return None
+    return tname, lit, key
+
+
+def _derived(value, var, fn, depth=0):
+    """value uses a local that was assigned (through at most three more
+    locals) from an expression of var"""
     names = {x.id for x in ast.walk(value) if isinstance(x, ast.Name)}
     for st in walk_no_nested(fn, False):
         if isinstance(st, (ast.Assign, ast.AugAssign)):
@@ -454,10 +500,13 @@ def _derived(value, var, fn):
             base = tg
             while isinstance(base, (ast.Subscript, ast.Attribute)):
                 base = base.value
-            if isinstance(base, ast.Name) and base.id in names and any(
-                    isinstance(x, ast.Name) and x.id == var
-                    for x in ast.walk(st.value)):
-                return True
+            if isinstance(base, ast.Name) and base.id in names:
+                if any(isinstance(x, ast.Name) and x.id == var
+                       for x in ast.walk(st.value)):
+                    return True
+                if depth < 3 and isinstance(tg, ast.Name) and _derived(
+                        st.value, var, fn, depth + 1):
+                    return True
     return False
 
 
